@@ -218,11 +218,129 @@ class KvsDriver:
         shutil.rmtree(self.root, ignore_errors=True)
 
 
+TKEYS = ["a", "b", "d/e"]
+TRANGE = {1: range(0, 25), 2: range(5, 35), 3: range(100, 125), 4: range(3, 7)}
+
+
+def run_tables(ev, vd, thorough, seed):
+    """The table store: histories of TableStoreGen.tla through the Klong surface of .tables, judged with TableStoreAbs.tla."""
+    import random
+    import pandas as pd
+    d = stage_spec("store/TableStoreAbs.tla", "store/TableStoreGen.tla", "store/TableStoreTrace.tla")
+    mod = os.path.join(d, "TableStoreGen.tla")
+    hists = []
+    for name, maxops, sim in (("tree", 3, None), ("sim", 7, 400 if not thorough else 5000)):
+        cfg = os.path.join(d, f"{name}.cfg")
+        with open(cfg, "w") as f:
+            f.write("INIT Init\nNEXT Next\nCONSTANTS\n  Keys = {%s}\n  MaxOps = %d\nINVARIANT Emit\nCHECK_DEADLOCK FALSE\n"
+                    % (", ".join('"%s"' % x for x in TKEYS), maxops))
+        r = run_tlc(mod, cfg, workers=1, simulate=(f"num={sim // 4}" if sim else None), depth=(maxops + 1 if sim else None), seed=seed + 17, timeout=3000)
+        ev.add_tlc(f"TableStoreGen.tla histories of {maxops} operations" + (" (-simulate)" if sim else " (exhaustive)"), r)
+        hs = [p for p in r.prints if isinstance(p, list)]
+        if sim:
+            random.Random(seed).shuffle(hs)
+            hs = hs[:sim]
+        hists += hs
+    if len(hists) < 300:
+        raise MachineryError(f"only {len(hists)} table-store histories")
+    common.use_repo()
+    from klongpy import KlongInterpreter
+    from klongpy.db.sys_fn_db import Table
+    from klongpy.db.helpers import serialize_df, df_memory_usage
+    k = KlongInterpreter()
+    k('.py("klongpy.db")')
+    dfs = {t: pd.DataFrame({"s": [f"{t}-{i}" for i in rng]}, index=list(rng)) for t, rng in TRANGE.items()}
+    for t, df in dfs.items():
+        k[f"t{t}"] = Table(df)
+    m1, m3 = int(df_memory_usage(dfs[1])), int(df_memory_usage(dfs[3]))
+    p3 = len(serialize_df(dfs[3]))
+    limits = [m1 + (p3 + m3) // 2,            # one table in memory; the second fits by its pickled size only
+              10 * (m1 + m3),                  # everything fits
+              (len(serialize_df(dfs[4])) + int(df_memory_usage(dfs[4]))) // 2]   # smaller than the smallest table in memory
+    ev.cov["table_store_limits"] = limits
+    traces, meta = [], {}
+    for hi, h in enumerate(hists):
+        limit = limits[hi % len(limits)]
+        root = tempfile.mkdtemp(prefix="tbs-", dir=common.scratch())
+        k["tdir"] = root
+
+        def reopen():
+            k("tbs::.tables(tdir)")
+            k["tbs"].cache.max_memory = limit
+        reopen()
+        events = []
+        try:
+            for e in h:
+                ev_ = dict(e)
+                internal = False
+                try:
+                    if e["op"] == "set":
+                        ev_["rows"] = [[i, e["t"]] for i in TRANGE[e["t"]]]
+                        k(f'tbs,"{e["key"]}",,t{e["t"]}')
+                    elif e["op"] == "get":
+                        r = k(f'tbs?"{e["key"]}"')
+                        if isinstance(r, Table):
+                            df = r.get_dataframe()
+                            ev_["und"], ev_["obs"] = False, [[int(i), int(str(sv).split("-")[0])] for i, sv in zip(df.index, df["s"])]
+                        else:
+                            ev_["und"], ev_["obs"] = True, []
+                    elif e["op"] == "reopen":
+                        reopen()
+                    else:
+                        k["tbs"].cache.unload_file(e["key"])
+                except MemoryError:
+                    ev_["op"] = "refused"                  # documented: a table larger than the limit is refused (not stored)
+                except BaseException as ex:   # noqa
+                    internal = True
+                    ev_["exc"] = f"{type(ex).__name__}: {str(ex)[:60]}"
+                    ev_.setdefault("und", False)
+                    ev_.setdefault("obs", [])
+                c = k["tbs"].cache
+                ev_["acct"] = {"mem": int(c.current_memory_usage), "sum": int(sum(int(i[1]) for i in c.file_futures.values() if not i[0])),
+                               "limit": int(limit), "internal": internal}
+                events.append(ev_)
+        finally:
+            shutil.rmtree(root, ignore_errors=True)
+        tid = len(traces)
+        traces.append({"tid": tid, "keys": TKEYS + ["never"], "events": events})
+        meta[tid] = (h, limit)
+    tf = os.path.join(d, "tbs.json")
+    with open(tf, "w") as fh:
+        json.dump(traces, fh)
+    cfgt = os.path.join(d, "trace.cfg")
+    with open(cfgt, "w") as fh:
+        fh.write("INIT Init\nNEXT Next\nCHECK_DEADLOCK FALSE\n")
+    rt = run_tlc(os.path.join(d, "TableStoreTrace.tla"), cfgt, workers=1, extra_env={"TRACE_FILE": tf}, timeout=3000)
+    ev.add_tlc("TableStoreTrace.tla (table store runs)", rt, "one state per recorded run; merge semantics and accounting after every call")
+    verdicts = {v["tid"]: v for v in rt.prints if isinstance(v, dict) and "tid" in v}
+    if len(verdicts) != len(traces):
+        raise MachineryError(f"table-store validation returned {len(verdicts)} verdicts for {len(traces)} traces")
+    clusters = {}
+    for tid, v in verdicts.items():
+        if v["bad"] == "ok":
+            continue
+        h, limit = meta[tid]
+        e = traces[tid]["events"][v["at"] - 1]
+        ops = [(x["op"], x.get("key"), x.get("t")) for x in h[:v["at"]]]
+        case = {"clause": "TableStore:" + v["bad"], "limit": limit, "prog": ops, "exceptions": [e.get("exc")],
+                "what": f"table store, limit {limit}: after {ops}: {v['bad']}: accounting {e['acct']}" + (f", raised {e['exc']}" if e.get("exc") else "")
+                        + (f", read {len(e.get('obs', []))} rows" if e["op"] == "get" else "")}
+        clusters.setdefault((v["bad"], limit), []).append(case)
+    for key, items in sorted(clusters.items(), key=lambda kv: str(kv[0])):
+        items.sort(key=lambda c_: len(c_["prog"]))
+        case = dict(items[0])
+        case["cluster_size"] = len(items)
+        vd.violation(case, matcher=lambda f, c_: False)
+    ev.cov["table_store_histories"] = len(traces)
+    return len(traces)
+
+
 def run(tier, seed):
     logging.disable(logging.CRITICAL)
     ev = Evidence(PROP, tier, seed)
     vd = Verdicts(PROP, ev)
     thorough = tier == "thorough"
+    n_tables = run_tables(ev, vd, thorough, seed)
     d = stage_spec("store/FileCache.tla", "store/CacheAbs.tla", "store/CacheTrace.tla")
     k = klong_env()
     sizes = real_sizes(k)
